@@ -447,6 +447,15 @@ func (p *Packer) Unpack(r io.Reader, dst string) error {
 		}
 
 		if info.IsDirectory() {
+			// A symlink left at this path by an earlier entry is replaced, never
+			// followed: the deferred chmod/chtimes below would otherwise be
+			// applied to its target, which may lie outside of dst.
+			if fi, err := os.Lstat(info.Path); err == nil && fi.Mode()&os.ModeSymlink != 0 {
+				if err := os.Remove(info.Path); err != nil {
+					return fmt.Errorf("failed replacing symlink %q: %w", info.Path, err)
+				}
+			}
+
 			// Create the directory itself: nothing else does for a directory
 			// without entries below it.
 			if err := os.MkdirAll(info.Path, 0755); err != nil {
